@@ -1,1 +1,201 @@
-From Ont Require Import Proofs.P2PFrame.
+(** C24 — P2P message decoding never panics and round-trips every message.
+
+    Model: Model/P2PMsg.v (ReadMessage/WriteMessage and every payload codec of
+    p2pserver/message/types on the ZeroCopySource model of C18), with the limits and the dispatch
+    table of makeEmptyMessage regenerated from the source (Gen/P2PConsts.v) and tied to the code by
+    the C24 correspondence on every run. SHA-256, public-key parsing, signature verification, the
+    clock and the core/types codecs embedded in headers/block/tx messages are the fields of
+    [ext]; every theorem quantifies over all of them under [ext_ok] (the embedded codecs reproduce
+    what they consume and make progress; an empty signature never verifies).
+
+    The literal statement "an accepted message re-serializes to the payload" is FALSE of the code:
+    [c24_reserialize_refuted] (witnesses: trailing bytes, Addr/Inv clamps, lenient Version and
+    FindNodeResp fields, non-canonical public keys, Block without root/flag). What holds, and is
+    proved for all inputs, is the same statement outside those classes: [c24_reserialize_partial],
+    [c24_frame_reserialize_partial]. Nothing else is partial. *)
+From Coq Require Import List Bool NArith ZArith.
+Import ListNotations.
+From Ont Require Import Lib.Bytes Gen.P2PConsts Model.Codec Proofs.Codec Model.P2PMsg
+  Proofs.P2PMsgLib Proofs.P2PMsg Proofs.P2PFrame Proofs.P2PWitness.
+Local Open Scope N_scope.
+
+(** (1) Never panics, never out of bounds, bounded element count. For every command and every
+    payload the decoder returns a message or an error that is neither the out-of-range slice
+    (Go: panic) nor fuel exhaustion (the loops terminate within the unread bytes); an accepted
+    message leaves the offset inside the payload and holds at most as many appended elements as
+    bytes were consumed (no count-driven allocation). *)
+Theorem c24_decode_total_bounded : forall (E : Type) (X : ext E), ext_ok X ->
+  forall cmd payload, N.of_nat (length payload) < two64 -> wf_bytes payload = true ->
+  match decode_payload X cmd payload with
+  | DErr e => e <> ErrOutOfRange /\ e <> ErrFuel
+  | DOk (m, s', _) => buf s' = payload /\ (off s' <= length payload)%nat /\ (msg_elems m <= off s')%nat
+  end.
+Proof.
+  intros E X XO cmd payload Hl Hw. pose proof (decode_payload_ok X XO cmd payload Hl Hw) as P.
+  destruct (decode_payload X cmd payload) as [[[m s'] lf]|e]; [|exact P].
+  destruct P as [[B O] [El _]]. cbn [src_new buf off] in *. repeat split; try assumption; try apply O.
+  rewrite Nat.sub_0_r in El. exact El.
+Qed.
+Print Assumptions c24_decode_total_bounded.
+
+(** (2) Re-serialization, outside the finding classes: if the decoder raised no leniency flag,
+    the message serializes to exactly the bytes consumed; if moreover it consumed the whole
+    payload, to the payload. *)
+Theorem c24_reserialize_partial : forall (E : Type) (X : ext E), ext_ok X ->
+  forall cmd payload m s', N.of_nat (length payload) < two64 -> wf_bytes payload = true ->
+  decode_payload X cmd payload = DOk (m, s', []) ->
+  enc_msg X m = firstn (off s') payload /\ (off s' = length payload -> enc_msg X m = payload).
+Proof.
+  intros E X XO cmd payload m s' Hl Hw D. pose proof (decode_payload_ok X XO cmd payload Hl Hw) as P.
+  rewrite D in P. destruct P as [_ [_ R]]. destruct (R eq_refl) as [_ [_ En]].
+  cbn [src_new buf off] in En. unfold slice in En. cbn [skipn] in En. rewrite Nat.sub_0_r in En.
+  split; [exact En|]. intro Ho. rewrite En, Ho. apply firstn_all.
+Qed.
+Print Assumptions c24_reserialize_partial.
+
+(** The literal statement of the property (every accepted frame is reproduced by WriteMessage). *)
+Definition c24_full_statement : Prop :=
+  forall (E : Type) (X : ext E), ext_ok X ->
+  forall magic st m len lf consumed rest,
+    wf_bytes st = true -> N.of_nat (length st) < two64 -> magic < two32 ->
+    read_message X magic st = FOk m len lf consumed rest ->
+    write_message X magic m ++ rest = st.
+
+(** KNOWN FINDING: refuted by a ping frame with one trailing payload byte (real checksum). *)
+Theorem c24_reserialize_refuted : ~ c24_full_statement.
+Proof.
+  intro F. destruct w_frame_differs as [m [len [lf [c [R [_ D]]]]]].
+  specialize (F N toy_ext toy_ext_ok w_magic w_frame_ping_trailing m len lf c []
+                ltac:(vm_compute; reflexivity) ltac:(vm_compute; reflexivity) ltac:(vm_compute; reflexivity) R).
+  rewrite app_nil_r in F. exact (D F).
+Qed.
+Print Assumptions c24_reserialize_refuted.
+
+(** KNOWN FINDING (addr:count-over-64-not-reserialized): 65 well-formed entries are accepted, all
+    bytes consumed, 64 entries kept; the message does not serialize back to the payload. *)
+Theorem addr_reserialize_refuted :
+  exists payload (m : msg N) s',
+    decode_payload toy_ext cmd_addr payload = DOk (m, s', [LAddrClamp]) /\
+    off s' = length payload /\ enc_msg toy_ext m <> payload.
+Proof.
+  destruct w_addr65_consumed_all as [m [s' [D [O _]]]].
+  exists w_addr65, m, s'. split; [exact D|]. split; [exact O|].
+  destruct w_addr65_differs as [m2 [s2 [D2 N2]]]. rewrite D in D2. inversion D2; subst. exact N2.
+Qed.
+Print Assumptions addr_reserialize_refuted.
+
+(** Every other leniency flag is witnessed as well: accepted, and not reproduced. *)
+Theorem c24_leniencies_witnessed :
+  accepted_differs cmd_inv w_inv65 [LInvClamp] /\
+  accepted_differs cmd_version w_version_nosoft [LVersionStr] /\
+  accepted_differs cmd_findnodeack w_find_bool [LFindBool] /\
+  accepted_differs cmd_findnodeack w_find_len [LFindStr] /\
+  accepted_differs cmd_consensus w_cons_key [LPubKey] /\
+  accepted_differs cmd_block w_block_noroot [LBlockRoot; LBlockCC] /\
+  accepted_differs cmd_block w_block_noflag [LBlockCC] /\
+  accepted_differs cmd_ping w_ping_trailing [].
+Proof.
+  repeat split; [exact w_inv65_differs | exact w_version_differs | exact w_find_bool_differs
+  | exact w_find_len_differs | exact w_cons_key_differs | exact w_block_noroot_differs
+  | exact w_block_noflag_differs | exact w_ping_trailing_differs].
+Qed.
+Print Assumptions c24_leniencies_witnessed.
+
+(** Addr, in terms of the input: the flag is raised exactly when the declared count exceeds
+    MAX_ADDR_NODE_CNT, so for count <= 64 theorem (2) applies. *)
+Theorem addr_reserialize_partial : forall (E : Type) (X : ext E) payload (m : msg E) s' lf,
+  N.of_nat (length payload) < two64 -> wf_bytes payload = true ->
+  dec_addr (src_new payload) = DOk (m, s', lf) ->
+  le_decode (firstn 8 payload) <= MAX_ADDR_NODE_CNT ->
+  lf = [] /\ enc_msg X m = firstn (off s') payload.
+Proof.
+  intros E X payload m s' lf Hl Hw D Hc.
+  pose proof (dec_addr_flag payload m s' lf Hl Hw D) as F.
+  assert (T : (MAX_ADDR_NODE_CNT <? le_decode (firstn 8 payload)) = false) by (apply N.ltb_ge; exact Hc).
+  rewrite T in F. split; [exact F|]. subst lf.
+  pose proof (dec_addr_ok X (src_new payload) (src_new_ok payload Hl) Hw) as P.
+  rewrite D in P. destruct P as [_ [_ R]]. destruct (R eq_refl) as [_ [_ En]].
+  cbn [src_new buf off] in En. unfold slice in En. cbn [skipn] in En. rewrite Nat.sub_0_r in En. exact En.
+Qed.
+Print Assumptions addr_reserialize_partial.
+
+(** (3) The whole frame, outside the finding classes: an accepted frame whose payload decoder
+    raised no flag and consumed the payload is reproduced byte for byte by WriteMessage (magic,
+    zero-padded command, length, checksum, payload), followed by what was left in the reader. *)
+Theorem c24_frame_reserialize_partial : forall (E : Type) (X : ext E), ext_ok X ->
+  forall magic st m len lf consumed rest,
+    wf_bytes st = true -> N.of_nat (length st) < two64 -> magic < two32 ->
+    read_message X magic st = FOk m len lf consumed rest ->
+    lf = [] -> consumed = N.to_nat len ->
+    write_message X magic m ++ rest = st.
+Proof. intros E X XO. exact (frame_reserialize X XO). Qed.
+Print Assumptions c24_frame_reserialize_partial.
+
+(** (4) Header checks. Short header, wrong magic, oversized length, truncated payload and bad
+    checksum are rejected, in this order, for every stream. *)
+Theorem c24_header_rejections : forall (E : Type) (X : ext E) magic st,
+  ((length st < MSG_HDR_LEN)%nat -> read_message X magic st = FErr FShortHeader) /\
+  ((MSG_HDR_LEN <= length st)%nat ->
+     (hdr_magic st <> magic -> read_message X magic st = FErr FMagic) /\
+     (hdr_magic st = magic -> MAX_PAYLOAD_LEN < hdr_len st -> read_message X magic st = FErr FLength) /\
+     (hdr_magic st = magic -> hdr_len st <= MAX_PAYLOAD_LEN ->
+        ((length st - MSG_HDR_LEN < N.to_nat (hdr_len st))%nat -> read_message X magic st = FErr FShortPayload) /\
+        ((N.to_nat (hdr_len st) <= length st - MSG_HDR_LEN)%nat ->
+           checksum (x_hash X) (firstn (N.to_nat (hdr_len st)) (skipn MSG_HDR_LEN st)) <> hdr_cks st ->
+           read_message X magic st = FErr FChecksum))).
+Proof.
+  intros E X magic st. split; [apply rejects_short_header|]. intro L.
+  split; [apply rejects_wrong_magic; exact L|].
+  split; [apply rejects_oversized; exact L|].
+  intros M Hm. split; [apply rejects_truncated; assumption|apply rejects_bad_checksum; assumption].
+Qed.
+Print Assumptions c24_header_rejections.
+
+(** Conversely, acceptance implies every header check and that the message is the decoding of
+    exactly the [len] payload bytes under the trimmed command. *)
+Theorem c24_accept_implies_checks : forall (E : Type) (X : ext E) magic st m len lf consumed rest,
+  read_message X magic st = FOk m len lf consumed rest ->
+  (MSG_HDR_LEN <= length st)%nat /\ hdr_magic st = magic /\ len = hdr_len st /\ len <= MAX_PAYLOAD_LEN /\
+  exists payload s',
+    skipn MSG_HDR_LEN st = payload ++ rest /\ length payload = N.to_nat len /\
+    checksum (x_hash X) payload = hdr_cks st /\
+    decode_payload X (trim_right0 (hdr_cmd st)) payload = DOk (m, s', lf) /\ consumed = off s'.
+Proof. intros E X. exact (read_message_inv X). Qed.
+Print Assumptions c24_accept_implies_checks.
+
+(** (5) Allocation: the buffers ReadMessage allocates for any stream are the header plus, only
+    after the magic and length checks, the declared length, which is at most MAX_PAYLOAD_LEN. *)
+Theorem c24_alloc_bounded : forall magic st,
+  read_message_alloc magic st <= N.of_nat MSG_HDR_LEN + MAX_PAYLOAD_LEN.
+Proof. exact alloc_bounded. Qed.
+Print Assumptions c24_alloc_bounded.
+
+(** (6) The dispatch table read from the source: every type the switch returns has a modelled
+    decoder, and its CmdType() is the case label (so WriteMessage writes the command it was read under). *)
+Theorem c24_dispatch_table_modelled :
+  forallb (fun e => match kind_of_name (d_name e) with
+                    | Some k => bytes_eqb (cmd_of_kind k) (d_cmd e)
+                    | None => false end) DISPATCH = true.
+Proof. exact table_cmdtype. Qed.
+Print Assumptions c24_dispatch_table_modelled.
+
+(** (7) OfflineWitnessMsg.Deserialization never accepts: it does not read the proposer signature
+    that Serialization writes, and then verifies the empty one. (Every such message "returns an
+    error", which satisfies the property; recorded because it makes the message type unusable.) *)
+Theorem c24_offline_never_accepted : forall (E : Type) (X : ext E), ext_ok X ->
+  forall s m s' lf, dec_offline X s <> DOk (m, s', lf).
+Proof. intros E X XO s m s' lf. apply dec_offline_rejects. exact (xo_sig_empty X XO). Qed.
+Print Assumptions c24_offline_never_accepted.
+
+(** Non-vacuity: [ext_ok] is inhabited, a real frame (SHA-256 checksum) is accepted and reproduced,
+    and the repaired F6 inputs (count 2^63, 2^64-1) are rejected rather than sliced out of range. *)
+Example c24_nonvacuous :
+  ext_ok toy_ext /\
+  read_message toy_ext w_magic w_frame_ping = FOk (MPing 5) 8 [] 8 [1; 2; 3] /\
+  write_message toy_ext w_magic (MPing 5) ++ [1; 2; 3] = w_frame_ping /\
+  decode_payload toy_ext cmd_addr w_addr_2p63 = DErr ErrEOF /\
+  decode_payload toy_ext cmd_addr w_addr_max = DErr ErrEOF.
+Proof.
+  split; [exact toy_ext_ok|]. destruct w_frame_ping_ok as [A B]. destruct w_f6_rejected as [C D].
+  repeat split; assumption.
+Qed.
